@@ -77,3 +77,33 @@ func VF_C19_PatchInTx() {
 	_, e3 := d.PutToObject("after", "x")
 	vf.Assert(e3 == nil, "C20 the document is usable afterwards")
 }
+
+// VF_C19_BadTargets (C19, C03): PatchByJSON towards something that is valid JSON
+// but not an object (the root of a document is an object), and Patch with an
+// operation that addresses the whole document: an error, never a panic, nothing
+// readable changes, nothing is queued.
+func VF_C19_BadTargets() {
+	d := vfNewDocSimple()
+	_, e0 := d.PutToObject("a", "1")
+	vf.Assert(e0 == nil, "setup")
+	before := d.ToJSON()
+	n0, s0 := pendingOps(d)
+	target := []string{`[1,2]`, `"abc"`, `null`, `7`, `true`, `[]`}[vf.Choice("target", 6)]
+	vf.Tag("target", target)
+	var err error
+	panicked, msg := vf.Try(func() {
+		_, e := d.PatchByJSON(target)
+		err = toErr(e)
+	})
+	vf.Reach("answered")
+	if panicked {
+		vf.Tag("_panic", msg)
+	}
+	vf.Assert(!panicked, "C03 no panic")
+	vf.Assert(err != nil, "C19 a target that is not a JSON object is refused")
+	n1, s1 := pendingOps(d)
+	vf.Assert(jsonDeepEq(d.ToJSON(), before) && n1 == n0 && s1 == s0, "C03 a refused patch changes nothing readable and queues nothing")
+	_, e2 := d.PutToObject("b", "2")
+	n2, s2 := pendingOps(d)
+	vf.Assert(e2 == nil && n2 == n0+1 && s2 == s0+1, "C03 the next operation is numbered right after the last one issued")
+}
